@@ -335,6 +335,12 @@ pub fn run(p: &Params) -> Report {
         w.profile.withdraw = 10;
         w.profile.odd_spelling_permille = 250;
         w.profile.hostile = 15;
+        if case % 6 == 1 {
+            // mint-heavy histories: mints that raise the recorded DOSC speed, followed by mints over older coins (some of
+            // them claiming more than their reward)
+            w.profile.doscmint = 22;
+            w.profile.fast_mint_permille = 250;
+        }
         if case % 6 == 4 {
             // whales: most amounts near their caps or log-uniform up to 2^120, many swaps per block, so that several
             // large, non-round requests against large reserves settle together (128-bit products overflow)
